@@ -307,6 +307,90 @@ fn rebinding(w: &mut Worker) {
     }
 }
 
+/// Many different written arguments (short and long, with and without references) bound over and over
+/// in one run, in growing windows and backwards, with the variables changed on the way: every binding is
+/// the binding of the argument that is written there, with the values of that moment.
+fn many_templates(w: &mut Worker) {
+    for &count in &w.tier.pick(vec![3usize, 17, 18, 40], vec![3usize, 9, 16, 17, 18, 33, 40, 65, 130]) {
+        if !w.take() {
+            continue;
+        }
+        let cj = json!({"kind": "many-templates", "count": count});
+        w.begin(|| cj.clone());
+        w.add_transitions(1);
+        let got: Rc<RefCell<Vec<Vec<String>>>> = Rc::new(RefCell::new(vec![]));
+        let mut ctx = sdk_context();
+        {
+            let g = got.clone();
+            ctx.commands
+                .set(fn_command("capture", move |c| {
+                    g.borrow_mut().push(c.arguments.clone());
+                    CommandResult::Continue(None)
+                }))
+                .unwrap();
+        }
+        // template k, as written, and what it binds to under the values (v0, v1, v2)
+        let written = |k: usize| -> String {
+            match k % 4 {
+                0 => format!("template-number-{}-${{v{}}}-tail-of-it", k, k % 3),
+                1 => format!("\"the ${{v{}}} long text of template {} ${{v{}}}\"", k % 3, k, (k + 1) % 3),
+                2 => format!("t{}${{v{}}}", k, k % 3),
+                _ => format!("literal-text-without-references-{}", k),
+            }
+        };
+        let bound = |k: usize, v: &[String; 3]| -> String {
+            match k % 4 {
+                0 => format!("template-number-{}-{}-tail-of-it", k, v[k % 3]),
+                1 => format!("the {} long text of template {} {}", v[k % 3], k, v[(k + 1) % 3]),
+                2 => format!("t{}{}", k, v[k % 3]),
+                _ => format!("literal-text-without-references-{}", k),
+            }
+        };
+        let mut v: [String; 3] = ["A".to_string(), "p q".to_string(), String::new()];
+        let mut lines: Vec<String> = vec!["v0 = set A".into(), "v1 = set \"p q\"".into()];
+        let mut expect: Vec<Vec<String>> = vec![];
+        let mut step = 0usize;
+        let mut bind = |k: usize, lines: &mut Vec<String>, expect: &mut Vec<Vec<String>>, v: &mut [String; 3]| {
+            lines.push(format!("capture {} {}", k, written(k)));
+            expect.push(vec![k.to_string(), bound(k, v)]);
+            step += 1;
+            if step % 29 == 0 {
+                let which = (step / 29) % 3;
+                v[which] = format!("changed{}", step);
+                lines.push(format!("v{} = set changed{}", which, step));
+            }
+        };
+        for win in 1..=count {
+            for _pass in 0..2 {
+                for k in 0..win {
+                    bind(k, &mut lines, &mut expect, &mut v);
+                }
+            }
+        }
+        for k in (0..count).rev() {
+            bind(k, &mut lines, &mut expect, &mut v);
+            bind(0, &mut lines, &mut expect, &mut v);
+        }
+        let script = lines.join("\n");
+        let (env, _o, _e, _h) = quiet_env();
+        let r = guarded(|| runner::run_script(&script, ctx.clone(), Some(env)));
+        match r {
+            Err(p) => w.fail("many-templates:panic", &p, cj),
+            Ok(Err(e)) => w.fail("many-templates:run-failed", &format!("{} templates: {}", count, e), cj),
+            Ok(Ok(_)) => {
+                let g = got.borrow().clone();
+                if g.len() != expect.len() {
+                    w.fail("many-templates:capture-count", &format!("{} templates: capture ran {} times, expected {}", count, g.len(), expect.len()), cj);
+                } else if let Some(i) = (0..g.len()).find(|&i| g[i] != expect[i]) {
+                    w.fail("many-templates:binding", &format!("{} templates: binding {} of {} received {:?}, expected {:?}", count, i + 1, g.len(), g[i], expect[i]), cj);
+                } else {
+                    w.pass(true, hash64(&("many-templates", count)));
+                }
+            }
+        }
+    }
+}
+
 /// Names are free of blanks, `=` and `}` - nothing else: a name may hold `$`, `%`, `{`, a backslash, a
 /// quote, even the two characters that open a reference. The name of a reference runs up to the first
 /// `}`; what it names is looked up as it stands.
@@ -398,6 +482,7 @@ pub fn worker(w: &mut Worker) {
     scale(w);
     rebinding(w);
     odd_names(w);
+    many_templates(w);
     let mut rig = Rig::new();
     let mut templates: Vec<Tpl> = vec![];
     for t in Strings::new(&PIECES[..], 1, 3) {
@@ -583,6 +668,9 @@ pub fn replay(case: &Value) -> Result<String, String> {
     if case["kind"].as_str() == Some("rebinding") {
         return Ok("re-run the check: the case is rebuilt from its values (first, second, how) by the generator".to_string());
     }
+    if case["kind"].as_str() == Some("many-templates") {
+        return Ok("re-run the check: the history is rebuilt from the number of templates by the generator".to_string());
+    }
     let args: Vec<String> = case["written"]
         .as_array()
         .ok_or("no written")?
@@ -614,7 +702,7 @@ pub fn crash_sig(_case: &Value, kind: &str) -> String {
     kind.to_string()
 }
 
-pub const RULE: &str = "every template of 1..3 pieces from {a, 'b c', e-acute, ${v}, ${w}, ${u} (undefined), ${a.b}, ${s::e1} (name with '::', a digit and a non-ASCII letter), \\${v}} and the whole-argument forms %{v} %{w} %{u}, in three argument positions (alone, first of two, last of three after a spread), x every value of v (undefined, every string up to the length bound over {a SP \" \\ # $ { } % LF = e-acute TAB CR NBSP}, 9 special values such as '${w}' and '  ') x 8 values of w (only where the argument list mentions them); bound by runner::run_instruction and observed by a capture command; every template also under the empty environment (no variable defined at all); a second family writes the same templates as script text (plain and quoted) and runs them through run_script. Oracle: one-pass reference substitution; spread = space-separated non-empty words. Non-trivial: the argument list mentions v or w. states = distinct (received count, position, kind) classes; transitions = real bindings. Scale cases: a value of 300/70000 (thorough 1000003) characters made of ${v}, %{w}, backslash, '#' and quote text bound alone, embedded and as an array item (must arrive whole and uninterpreted); 300/3000 (thorough 30000) words spread by %{..} and as many arguments written out on one line. Re-binding family: the templates %{w} ${w} bound twice in one run with the variable changed in between by a command writing the variable table directly, by an assignment, by set_by_name, as a for/in loop variable, as a function argument, or removed (6 x 6 values): each binding shows the value of its moment Punctuation values: every ASCII punctuation character and the low-byte look-alikes of blank, quote, #, backslash, $, %, braces and apostrophe, leading / trailing / wrapping the words of the value (6 shapes each) through every template: a value is data, a spread splits it at blanks only Odd names: every character of the wide alphabet that a name may hold (all but white space, = and }) inside, in front of and behind a name, and the two-character sequences ${ %{ $$ {{ \\$ \\% inside names, through five templates (alone, embedded, next to another reference on either side, as a spread): the name runs to the first } and is looked up as it stands. Every odd name is also bound while it is NOT defined (its parts being names of defined variables): nothing; the names include 30 operators other languages allow inside a reference (:- := :+ # ## % %% / // :1 [0] [@] ^ ^^ , ,, @Q ...)";
+pub const RULE: &str = "every template of 1..3 pieces from {a, 'b c', e-acute, ${v}, ${w}, ${u} (undefined), ${a.b}, ${s::e1} (name with '::', a digit and a non-ASCII letter), \\${v}} and the whole-argument forms %{v} %{w} %{u}, in three argument positions (alone, first of two, last of three after a spread), x every value of v (undefined, every string up to the length bound over {a SP \" \\ # $ { } % LF = e-acute TAB CR NBSP}, 9 special values such as '${w}' and '  ') x 8 values of w (only where the argument list mentions them); bound by runner::run_instruction and observed by a capture command; every template also under the empty environment (no variable defined at all); a second family writes the same templates as script text (plain and quoted) and runs them through run_script. Oracle: one-pass reference substitution; spread = space-separated non-empty words. Non-trivial: the argument list mentions v or w. states = distinct (received count, position, kind) classes; transitions = real bindings. Scale cases: a value of 300/70000 (thorough 1000003) characters made of ${v}, %{w}, backslash, '#' and quote text bound alone, embedded and as an array item (must arrive whole and uninterpreted); 300/3000 (thorough 30000) words spread by %{..} and as many arguments written out on one line. Re-binding family: the templates %{w} ${w} bound twice in one run with the variable changed in between by a command writing the variable table directly, by an assignment, by set_by_name, as a for/in loop variable, as a function argument, or removed (6 x 6 values): each binding shows the value of its moment. Many templates: 3..40 (thorough ..130) different written arguments (long and short, quoted, with one or two references or none) bound over and over in one run, in growing windows (each window twice) and backwards alternating with the first, the three variables changed every 29 bindings: every binding is that of the argument written there with the values of that moment. Punctuation values: every ASCII punctuation character and the low-byte look-alikes of blank, quote, #, backslash, $, %, braces and apostrophe, leading / trailing / wrapping the words of the value (6 shapes each) through every template: a value is data, a spread splits it at blanks only Odd names: every character of the wide alphabet that a name may hold (all but white space, = and }) inside, in front of and behind a name, and the two-character sequences ${ %{ $$ {{ \\$ \\% inside names, through five templates (alone, embedded, next to another reference on either side, as a spread): the name runs to the first } and is looked up as it stands. Every odd name is also bound while it is NOT defined (its parts being names of defined variables): nothing; the names include 30 operators other languages allow inside a reference (:- := :+ # ## % %% / // :1 [0] [@] ^ ^^ , ,, @Q ...)";
 pub const ASSUMPTIONS: &[&str] = &["spread values containing a double quote or '#' are only checked for 'no panic' (their grouping is pinned by the repository's own tests, not by the statement)", "arguments that mix text with %{..} are outside the property's template domain"];
 pub const EXHAUSTIVE: bool = true;
 pub const WALL_CAP_S: (u64, u64) = (50, 1500);
